@@ -667,10 +667,93 @@ def hull_unit():
                        'local_type': lambda qual, name: 'List Pt' if qual == 'convex_hull' else None})
 
 
+# geostructures/structures.py :: GeoPolygon.__init__ — what the hull wrappers' `GeoPolygon(ring)` does to the ring   (C10)
+#
+# the instance with every optional parameter at its default (`holes=None`, `_is_hole=False`); the result is the stored
+# `self.outline`.  `outline[0]` / `outline[-1]` raise IndexError on an empty ring.  `is_counter_clockwise` is the model's
+# `isCCW` and `super().__init__` (PolygonBase: stores holes/dt/properties, cannot raise without holes) are pinned; the
+# two logging calls have no effect on the value.
+
+HULL_PINS = {
+    '_geometry.py::is_counter_clockwise': '029b036eea7a5394',
+    'structures.py::PolygonBase.__init__': 'e3b6c67c55a7b8b4',
+}
+
+
+def hullpoly_unit():
+    import ast as _ast
+    src = py2lean.Source(_repo('structures.py'))
+    insts = [Inst('GeoPolygon.__init__', 'init', [('self', 'None'), ('outline', 'List Pt')], 'Except List Pt',
+                  doc='holes, dt, properties, _is_hole at their defaults')]
+
+    def init_hook(tr, fields):
+        if set(fields) != {'outline'} or fields['outline'].typ != 'List Pt':
+            raise Unsupported(f'GeoPolygon.__init__ stores fields {sorted(fields)}')
+        return fields['outline'].text
+
+    def expr_stmt(tr, call):
+        if tr.is_super_init(_ast.Call(func=call.func, args=[], keywords=[])) and isinstance(call, _ast.Call) and not call.args \
+                and all(k.arg in ('holes', 'dt', 'properties') and isinstance(k.value, _ast.Name) and k.value.id == k.arg
+                        for k in call.keywords):
+            return True               # PolygonBase.__init__(holes=None, dt=None, properties=None): pinned
+        return isinstance(call, _ast.Call) and _ast.unparse(call.func) in ('LOGGER.warning', 'warn_once')
+
+    def ccw(tr, args):
+        if [a.typ for a in args] != ['List Pt']:
+            raise Unsupported('is_counter_clockwise(' + ', '.join(a.typ for a in args) + ')')
+        return Val(f'(GV.isCCW {args[0].text})', 'Bool')
+
+    return Unit('SrcHullPoly', src, 'GV.Src.HullPoly', ['GeoVerif.Model.Plane', 'GeoVerif.Model.PyPrelude', 'GeoVerif.Model.PyList'],
+                insts, {}, pins=dict(HULL_PINS), intrinsics={'is_counter_clockwise': ccw},
+                hooks={'isinstance': lambda typ: None, 'init': init_hook, 'expr_stmt': expr_stmt,
+                       'keywords': lambda tr, e: tr.is_super_init(_ast.Call(func=e.func, args=[], keywords=[]))})
+
+
+# geostructures/multistructures.py :: MultiGeoPoint / MultiGeoLineString / MultiGeoPolygon .convex_hull   (C10)
+#
+# a multi-shape is the list of its members (`μ`); what a member contributes is abstract: `cen m` = `m.centroid`,
+# `verts m` = `m.vertices`, `bc m` = `m.bounding_coords(**kwargs)`.  `convex_hull(...)` is SrcHull's translated function,
+# `GeoPolygon(...)` SrcHullPoly's translated constructor.
+
+def hullmulti_unit():
+    src = py2lean.Source(_repo('multistructures.py'))
+    insts = [
+        Inst('MultiGeoPoint.convex_hull', 'multiPointHull', [('self', 'HMulti')], 'Except List Pt'),
+        Inst('MultiGeoLineString.convex_hull', 'multiLineHull', [('self', 'HMulti')], 'Except List Pt'),
+        Inst('MultiGeoPolygon.convex_hull', 'multiPolyHull', [('self', 'HMulti')], 'Except List Pt'),
+    ]
+    py2lean.LEAN_TYPE.setdefault('HMulti', 'List μ')
+
+    def hull(tr, args):
+        if [a.typ for a in args] != ['List Pt']:
+            raise Unsupported('convex_hull(' + ', '.join(a.typ for a in args) + ')')
+        v = Val(f'(GV.Src.Hull.convexHull {args[0].text})', 'List Pt')
+        v.raises = True
+        return v
+
+    def poly(tr, args):
+        if [a.typ for a in args] != ['List Pt']:
+            raise Unsupported('GeoPolygon(' + ', '.join(a.typ for a in args) + ')')
+        v = Val(f'(GV.Src.HullPoly.init {args[0].text})', 'List Pt')
+        v.raises = True
+        return v
+
+    return Unit('SrcHullMulti', src, 'GV.Src.HullMulti', ['GeoVerif.Gen.SrcHull', 'GeoVerif.Gen.SrcHullPoly'], insts, {},
+                header='variable {μ : Type}',
+                attr_types={('HMulti', 'geoshapes'): ('{}', 'List μ'), ('μ', 'centroid'): ('(cen {})', 'Pt'),
+                            ('μ', 'vertices'): ('(verts {})', 'List Pt')},
+                abstract={('μ', 'bounding_coords', ()): ('bc {0}', 'List Pt')},
+                intrinsics={'convex_hull': hull, 'GeoPolygon': poly},
+                hooks={'isinstance': lambda typ: None},
+                ctx_params=[('cen', 'μ → GV.Pt'), ('verts', 'μ → List GV.Pt'), ('bc', 'μ → List GV.Pt')])
+
+
 UNITS = {'SrcTime': time_unit, 'SrcBase': base_unit, 'SrcMulti': multi_unit, 'SrcColl': coll_unit, 'SrcPip': pip_unit,
          'SrcMember': member_unit, 'SrcTrack': track_unit, 'SrcRelate': relate_unit, 'SrcCoord': coord_unit,
          'SrcCurved': curved_unit, 'SrcCalc': calc_unit}
 UNITS['SrcHull'] = hull_unit
+UNITS['SrcHullPoly'] = hullpoly_unit
+UNITS['SrcHullMulti'] = hullmulti_unit
 
 
 def render(name):
